@@ -250,8 +250,15 @@ def _gen_relaxed_est(rng, cls):
     return case
 
 
+def _map_rows01(t):
+    """same nesting as a bern_batch table, every innermost [f(0), f(1)] pair replaced by [0, 1]"""
+    if isinstance(t, list) and len(t) == 2 and not isinstance(t[0], list):
+        return [0.0, 1.0]
+    return [_map_rows01(x) for x in t]
+
+
 def _gen_imh(rng, cls):
-    fam = rng.choice(["bern_batch", "bern_indep", "onehot", "cat", "onehot_batch", "srswor"])
+    fam = rng.choice(["bern_batch", "bern_batch", "bern_indep", "onehot", "cat", "onehot_batch", "srswor"])
     case = {"class": cls, "est": "imh", "family": fam, "dtype": rng.choice(["float32", "float64"]),
             "is_log": rng.random() < 0.3}
     if fam == "srswor":
@@ -266,6 +273,10 @@ def _gen_imh(rng, cls):
         case.update(shape=shape, kind=kind, theta=_gen_theta(rng, fam, shape, kind))
         case["table"] = _gen_table(rng, fam, shape, -2.0, 1.5 if case["is_log"] else 2.0)
         nom = len(X.omega(fam, shape))
+        if fam == "bern_batch" and not case["is_log"] and rng.random() < 0.75:
+            # f(b) = b handed back as the very tensor it was given (a view of the chain state, no copy)
+            case["func_view"] = True
+            case["table"] = _map_rows01(case["table"])
     mc = rng.randint(1, 7)
     case["mc_samples"] = mc
     case["burn_in"] = rng.randint(0, min(mc - 1, 3))
@@ -776,6 +787,13 @@ def _exec_imh(case, mon):
         prop = S.build(fam, kind, shape, theta, scripted=True)
         twin = S.build(fam, kind, shape, theta.clone())
         func = S.make_func(fam, shape, case["table"], dtype, False, record=rec)
+        if case.get("func_view"):
+            mon.cls("imh_func_returns_its_argument")
+
+            def func(b):
+                rec.append(b.detach().clone())
+                return b
+
         fvals = X.ftable(fam, shape, case["table"])
 
         def draw(i):
